@@ -17,6 +17,10 @@ REGISTRY = {
     "C17": ("props_tariff", "check_C17"),
     "C15": ("props_eventgen", "check_C15"),
     "C16": ("props_sites", "check_C16"),
+    "C03": ("props_battery", "check_C03"),
+    "C14": ("props_battery", "check_C14"),
+    "C11": ("props_eventqueue", "check_C11"),
+    "C18": ("props_analysis", "check_C18"),
 }
 
 
